@@ -621,7 +621,8 @@ func (g *gen) fillMessage(f *File, m *Message, full string) {
 				ti := msgs[g.intn("mapmsgref", 0, len(msgs)-1)]
 				fld.Type, fld.TypeKind = ti.full, "message"
 				g.needImport(f, ti.file.Path)
-			} else if len(enums) > 0 && g.pct("mapenum", 30) {
+			} else if enums = zeroFirst(enums); len(enums) > 0 && g.pct("mapenum", 30) {
+				// protoc requires the first value of an enum used as a map value to be zero
 				ti := enums[g.intn("mapenumref", 0, len(enums)-1)]
 				fld.Type, fld.TypeKind = ti.full, "enum"
 				g.needImport(f, ti.file.Path)
@@ -732,6 +733,16 @@ func (g *gen) fillMessage(f *File, m *Message, full string) {
 		}
 	}
 	m.Options = append(m.Options, g.customOpts("MessageOptions", f)...)
+}
+
+func zeroFirst(in []*typeInfo) []*typeInfo {
+	var out []*typeInfo
+	for _, ti := range in {
+		if ti.enum != nil && len(ti.enum.Values) > 0 && ti.enum.Values[0].Number == 0 {
+			out = append(out, ti)
+		}
+	}
+	return out
 }
 
 func defaultFor(typ string, n int) string {
